@@ -1,3 +1,3 @@
 #!/bin/sh
 # fast compile check of the harness files with the repository's own rustc (cfg verif_replay)
-cd /repo && RUSTFLAGS="--cfg verif_replay" CARGO_NET_OFFLINE=true cargo check -p rs-matter --lib --tests --no-default-features --features std,groups,case-resumption --target-dir /verif/.build/replay 2>&1 | grep -E "^(error|warning: unused)" -A12 | head -${1:-80}
+cd /repo && RUSTFLAGS="--cfg verif_replay" CARGO_NET_OFFLINE=true cargo check -p rs-matter --lib --tests --no-default-features --features std,groups,case-resumption,max-sessions-3 --target-dir /verif/.build/replay 2>&1 | grep -E "^(error|warning: unused)" -A12 | head -${1:-80}
